@@ -28,6 +28,9 @@ def nontrivial(req, obs):
         # a conditional with a second group, and something that can be selected or skipped
         t = "\t".join(f[2:])
         return "if" in t and ("el" in t) and obs != "bad-request"
+    if f[0] == "C11.frag":
+        t = "\t".join(f[1:])
+        return "if" in t and ("el" in t) and obs != "bad-request"
     return False
 
 
@@ -70,6 +73,11 @@ def shrink(req):
                 continue
             for i in range(len(lines)):
                 yield "\t".join(f[:k] + [name + sep + "".join(lines[:i] + lines[i + 1:])] + f[k + 1:])
+    elif f[0] == "C11.frag" and len(f) > 1:
+        lines = [x for x in re.split(r"(?<=\\n)", f[1]) if x]
+        if len(lines) <= 80:
+            for i in range(len(lines)):
+                yield "C11.frag\t" + "".join(lines[:i] + lines[i + 1:])
     elif f[0] == "C11.cond" and len(f) > 2:
         toks = f[2].split(" ")
         for i in range(len(toks)):
@@ -121,6 +129,13 @@ def search(ctx):
             out.append("C11.raw\t\t#include \"h.h\"\\n%s#include \"h.h\"\\nprobe G B\\n\th.h=%s" % (between, hdr))
         out.append("C11.raw\tG=1\t#include \"h.h\"\\n#include \"h.h\"\\n#include \"h.h\"\\nprobe G B\\n\th.h=%s" % hdr)
         out.append("C11.raw\t\t#include \"w.h\"\\n#include \"h.h\"\\n#include \"w.h\"\\nprobe G B\\n\th.h=%s\tw.h=#include \"h.h\"\\n" % hdr)
+    # the second entry point: the define it supplies, seen by every kind of test; the fragment including itself
+    for t in ("#if __HLSL_VERSION >= 2021\\nT\\n#else\\nF\\n#endif\\n", "#if __HLSL_VERSION == 2021\\nT\\n#else\\nF\\n#endif\\n",
+              "#ifdef __HLSL_VERSION\\nT\\n#else\\nF\\n#endif\\n", "#ifndef __HLSL_VERSION\\nT\\n#else\\nF\\n#endif\\n",
+              "#if defined(__HLSL_VERSION)\\nT\\n#else\\nF\\n#endif\\n", "#if __HLSL_VERSION\\nT\\n#else\\nF\\n#endif\\n",
+              "v __HLSL_VERSION\\n", "#if 0\\na\\n#else\\nb\\n#endif\\n", "#if 1\\na /* c */ b\\n#endif\\n", "a\\n#endif\\n", "#if 1\\na\\n",
+              "#ifndef G\\n#define G\\nfirst\\n#include \"main.rssl\"\\n#else\\nsecond\\n#endif\\n"):
+        out.append("C11.frag\t" + t)
     for hostile in ("$", "#3", "#while", "#else junk", "#include <a", "#pragma bogus", "#define", "#include \"missing.h\""):
         out.append("C11.raw\t\t#if 0\\n%s\\n#endif\\nx\\n" % hostile)
         out.append("C11.raw\t\t#if 0\\n#if 1\\n%s\\n#endif\\n#endif\\nx\\n" % hostile)
@@ -284,7 +299,8 @@ SPEC = {
         "if_closed_by_includers_endif_rejected", "else_of_other_file_rejected",
         "nonname_directive_ignored_when_skipped",
         "include_arm_shape_agree", "include_is_processed_each_time", "guard_else_group_delivered_on_reinclude",
-        "defined_is_protected", "cond_eval_composed", "composed_shape_agree"]],
+        "defined_is_protected", "cond_eval_composed", "composed_shape_agree",
+        "entry_shape_agree", "fragment_is_a_file", "fragment_define_selects", "selected_text_reaches_parser"]],
     "harness": "c11",
     "nontrivial": nontrivial,
     "finding_key": finding_key,
